@@ -8,45 +8,30 @@ EXTENDS TALVM, MC_C17_Cases, Json, IOUtils, SequencesExt
 
 CONSTANTS Families,        \* which template families to explore
           CtxIds,          \* which named contexts
-          EscLen,          \* length bound of the metacharacter values (family esc)
+          NParts, Part,    \* this process explores the descriptors whose rank is Part modulo NParts
           MaxSteps,        \* Terminates: bound on the number of opcode steps of one expansion
           KnownRepeatOverMapping   \* TRUE iff the recorded finding "tal:repeat over a non-empty mapping" is listed
 
-VARIABLES case, phase, nsteps
-mcvars == <<st, prog, sym, macros, case, phase, nsteps>>
+VARIABLES desc, case, phase, nsteps
+mcvars == <<st, prog, sym, macros, desc, case, phase, nsteps>>
 
 Sem == INSTANCE TALSem
 
-CasesOf(f) == CASE f = "expr"   -> Fam("expr", ExprTrees, CtxIds)
-                [] f = "one0"   -> Fam("one", OneTrees({<<>>}), CtxIds)
-                [] f = "one1"   -> Fam("one", OneTrees({<<Define1a>>}), CtxIds)
-                [] f = "one2"   -> Fam("one", OneTrees({<<Define1b>>}), CtxIds)
-                [] f = "void"   -> Fam("void", VoidTrees, CtxIds)
-                [] f = "nestq0" -> Fam("nest", NestTreesQuick({<<>>}), CtxIds)
-                [] f = "nestq1" -> Fam("nest", NestTreesQuick({<<PDefineA>>}), CtxIds)
-                [] f = "nestq2" -> Fam("nest", NestTreesQuick({<<PDefineB>>}), CtxIds)
-                [] f = "nest0"  -> Fam("nest", NestTreesFull({<<>>}), CtxIds)
-                [] f = "nest1"  -> Fam("nest", NestTreesFull({<<PDefineA>>}), CtxIds)
-                [] f = "nest2"  -> Fam("nest", NestTreesFull({<<PDefineB>>}), CtxIds)
-                [] f = "deep"   -> Fam("deep", DeepTrees, CtxIds)
-                [] f = "metal0" -> Fam("metal", MetalTrees({TRUE}) \cup MetalExtra, CtxIds)
-                [] f = "metal1" -> Fam("metal", MetalTrees({FALSE}), CtxIds)
-                [] f = "esc"    -> EscCases(EscLen)
-                [] f = "py"     -> PyCases
-                [] f = "doc"    -> DocCases(IF Quick THEN DocTreesSmall ELSE DocTreesSmall \cup DocTreesLarge)
-Cases == UNION {CasesOf(f) : f \in Families}
+MyDescs == Descs(Families, CtxIds, NParts, Part)
 
 \* the context the harness builds: the entries of the case plus `macros` = the template's macro table
 G0(c) == Sem!GlobalsOf(CtxEnts(c), c.tree)
 
-Init == /\ case \in Cases /\ phase = "init" /\ nsteps = 0
+Init == /\ desc \in MyDescs /\ case = NoCase /\ phase = "init" /\ nsteps = 0
         /\ st = VMInit(EmptyF, FALSE, 0) /\ prog = <<>> /\ sym = [x \in {} |-> 0] /\ macros = <<>>
 Load == /\ phase = "init" /\ phase' = "run"
-        /\ LET c == Compile(case.tree) IN
-           /\ prog' = c.cmds /\ sym' = c.sym /\ macros' = c.macros
-           /\ st' = VMInit(G0(case), case.py, Len(c.cmds))
-        /\ UNCHANGED <<case, nsteps>>
-Run == /\ phase = "run" /\ nsteps <= MaxSteps /\ VMNext /\ nsteps' = nsteps + 1 /\ UNCHANGED <<case, phase>>
+        /\ LET cs == CaseOf(desc)
+               c  == Compile(cs.tree)
+           IN /\ case' = cs
+              /\ prog' = c.cmds /\ sym' = c.sym /\ macros' = c.macros
+              /\ st' = VMInit(G0(cs), cs.py, Len(c.cmds))
+        /\ UNCHANGED <<desc, nsteps>>
+Run == /\ phase = "run" /\ nsteps <= MaxSteps /\ VMNext /\ nsteps' = nsteps + 1 /\ UNCHANGED <<desc, case, phase>>
 Next == Load \/ Run
 Spec == Init /\ [][Next]_mcvars
 
@@ -58,5 +43,7 @@ WellFormed == (phase = "run" /\ nsteps = 0) => WellFormedProg(prog, sym, macros)
 Terminates == nsteps <= MaxSteps
 Completes  == Done => (st.err = "" \/ (KnownRepeatOverMapping /\ st.err = "KeyError"))
 Refines    == (Done /\ st.err = "") => (st.out = Sem!Doc(Ref.t) /\ st.g = Ref.g)
-WriteCases == JsonSerialize(IOEnv.CASES_FILE, [cases |-> SetToSeq(Cases), contexts |-> Contexts])
+\* exactly the cases this run explored, for the replay into the real simpleTAL (binding B2)
+WriteCases == LET ds == SetToSeq(MyDescs) IN
+              JsonSerialize(IOEnv.CASES_FILE, [cases |-> [i \in DOMAIN ds |-> CaseOf(ds[i])], contexts |-> Contexts])
 =============================================================================
